@@ -176,15 +176,16 @@ def _shrink(suite, exe, item, mode):
     key = item.get("msg", "").split(":")[0]
     custom = getattr(suite, "still_fails", None)
 
-    t_end = time.time() + float(os.environ.get("VERIF_SHRINK_BUDGET_S", "150"))
     hang = mode == "crash" and item.get("rc") == -9
+    # (every attempt at shrinking a hang costs a time-out: a small budget; what matters is that the hang is reported with an input)
+    t_end = time.time() + float(os.environ.get("VERIF_SHRINK_BUDGET_S", "150")) * (0.4 if hang else 1.0)
 
     def fails(c):
         if time.time() > t_end:
             return False                 # shrinking budget used up: keep what we have
         if custom is not None:
             return bool(custom(c, mode, item))
-        rc, out, err = core.run_proc(exe, core.case_text(c), timeout=min(15, core.CASE_TIMEOUT) if hang else 60, args=suite.harness_args())
+        rc, out, err = core.run_proc(exe, core.case_text(c), timeout=min(8, core.CASE_TIMEOUT) if hang else 60, args=suite.harness_args())
         iout = suite.normalize(core.split_outputs(out).get(str(c["id"]), []))
         if mode == "crash":
             # the same kind of failure only: a hang stays a hang, a crash keeps its exit status (a timeout while shrinking a
